@@ -363,10 +363,19 @@ impl ChessMove {
                 }
             }
 
-            if !ep && takes {
+            // a pawn changing file onto an empty square captures en passant
+            let is_ep = moving_piece == Piece::Pawn
+                && m.get_source().get_file() != m.get_dest().get_file()
+                && board.piece_on(m.get_dest()).is_none();
+
+            if takes && !is_ep {
                 if board.piece_on(m.get_dest()).is_none() {
                     continue;
                 }
+            }
+
+            if ep && !is_ep {
+                continue;
             }
 
             found_move = Some(m);
